@@ -550,6 +550,8 @@ func cmdCorr(seed uint64, n int, exh int) {
 	corrTrail(r, n/8)
 	// X: cross references of the second senc pass (coq/c04/C04XrefModel.v)
 	corrXref(r, n/10)
+	// I: Info of the table boxes at every level string (coq/c04/C04InfoModel.v)
+	corrInfo(r, n/4)
 	// C: count-field inflation of the table boxes (the prologues modelled in coq/c04/C04AllocModel.v)
 	corrCounts(r, n/2)
 	fmt.Fprintf(out, "STATS\t%d\t%d\t%d\t%d\n", rstats.ns, rstats.n, rstats.alloc, rstats.restarts)
